@@ -66,6 +66,9 @@ type env struct {
 	conn    driver.Conn
 }
 
+// once-per-run switches of the quick tier (package level: an env is made per history)
+var bigTamperDone, nonceRunDone bool
+
 func (e *env) emit(format string, a ...any) {
 	fmt.Fprintf(e.w, format+"\n", a...)
 }
@@ -500,8 +503,74 @@ func (e *env) runEnc(id, tier string) {
 		try(append(append([]byte(nil), orig...), orig...))
 		// swap with another key's ciphertext (valid AEAD output of a different value is a different value: allowed to decrypt,
 		// but it must then be that other value in full — reported, judged by the driver)
-		e.emit("S\tTAMPERSUM\t%d\t%d", total, accepted)
 		_ = os.WriteFile(filepath.Join(root, target), orig, 0o644)
+		// large values: truncation at every length of a structural kind (block, segment and record
+		// boundaries of any power-of-two size with the usual nonce/tag overheads), a random sample of
+		// other lengths, and byte flips near those boundaries
+		sizes := []int{65537, 150000, 196613}
+		if bigTamperDone && tier != "thorough" {
+			sizes = nil // once per run in the quick tier
+		}
+		bigTamperDone = true
+		for _, size := range sizes {
+			bk := "big" + strconv.Itoa(size)
+			bv := make([]byte, size)
+			for i := range bv {
+				bv[i] = byte('A' + (i*7+i/251)%26)
+			}
+			pre := e.readAllFiles()
+			if err := conn.Set(bk, bv); err != nil {
+				continue
+			}
+			var bt string
+			for f := range e.readAllFiles() {
+				if _, ok := pre[f]; !ok {
+					bt = f
+				}
+			}
+			if bt == "" {
+				continue
+			}
+			borig, _ := os.ReadFile(filepath.Join(root, bt))
+			lens := map[int]bool{}
+			for _, a := range []int{0, 12, 16, 28} {
+				for _, b := range []int{0, 12, 16, 28} {
+					for j := 9; j <= 18; j++ {
+						for kk := 1; a+kk*((1<<j)+b) < len(borig) && kk <= 400; kk++ {
+							lens[a+kk*((1<<j)+b)] = true
+						}
+					}
+				}
+			}
+			nrand := 200
+			if tier == "thorough" {
+				nrand = 3000
+			}
+			for i := 0; i < nrand; i++ {
+				lens[e.r.Intn(len(borig))] = true
+			}
+			tryBig := func(mod []byte) {
+				total++
+				_ = os.WriteFile(filepath.Join(root, bt), mod, 0o644)
+				got, err := conn.Get(bk)
+				if err == nil {
+					accepted++
+					e.emit("S\tTAMPER\taccepted\t%d\t%s", len(mod), valRepr(got))
+				}
+			}
+			n := 0
+			for l := range lens {
+				tryBig(borig[:l])
+				if n%40 == 0 && l > 0 {
+					mod := append([]byte(nil), borig...)
+					mod[l-1] ^= 0x01
+					tryBig(mod)
+				}
+				n++
+			}
+			_ = conn.Delete(bk)
+		}
+		e.emit("S\tTAMPERSUM\t%d\t%d", total, accepted)
 		// wrong key never yields data
 		other, err := fscache.Open("verif", fscache.WithBaseDir(e.dir), fscache.WithEncryption(encKey2))
 		if err == nil {
@@ -513,6 +582,51 @@ func (e *env) runEnc(id, tier string) {
 		if err == nil {
 			got, _ := plain.Get(k)
 			e.emit("S\tNOKEY\t%t", bytes.Equal(got, v) || containsFragment(got, v))
+		}
+	}
+	// nonces under concurrency: overlapping writes of one value must all produce different files
+	if !nonceRunDone || tier == "thorough" {
+		nonceRunDone = true
+		writers, per := 8, 300
+		if tier == "thorough" {
+			per = 2000
+		}
+		val := bytes.Repeat([]byte("same value "), 6)
+		var wg sync.WaitGroup
+		var pmu sync.Mutex
+		panics := 0
+		for w := 0; w < writers; w++ {
+			wg.Add(1)
+			go func(w int) {
+				defer wg.Done()
+				defer func() {
+					if r := recover(); r != nil {
+						pmu.Lock()
+						panics++
+						pmu.Unlock()
+					}
+				}()
+				for i := 0; i < per; i++ {
+					_ = conn.Set("nonce-"+strconv.Itoa(w)+"-"+strconv.Itoa(i%50), val)
+				}
+			}(w)
+		}
+		wg.Wait()
+		seen := map[string]int{}
+		dups := 0
+		for _, b := range e.readAllFiles() {
+			if len(b) >= 12 {
+				seen[string(b[:12])]++
+				if seen[string(b[:12])] == 2 {
+					dups++
+				}
+			}
+		}
+		e.emit("S\tNONCES\t%d\t%d\t%d", writers*per, dups, panics)
+		for w := 0; w < writers; w++ {
+			for i := 0; i < 50; i++ {
+				_ = conn.Delete("nonce-" + strconv.Itoa(w) + "-" + strconv.Itoa(i))
+			}
 		}
 	}
 	e.emit("E\t%s", id)
